@@ -13,7 +13,7 @@ from vizier._src.service import vizier_service_pb2 as vs
 
 SERVICE_ALGOS = {'grid': 'GRID_SEARCH', 'sgrid': 'SHUFFLED_GRID_SEARCH', 'quasi': 'QUASI_RANDOM_SEARCH',
                  'eagle': 'EAGLE_STRATEGY', 'nsga2': 'NSGA2', 'cmaes': 'CMA_ES'}
-SERVICE_SPACE = {'int10': 'int10', 'mixed': 'mixed', 'f2': 'f2', 'small': None, 'f3log': None}
+SERVICE_SPACE = {'int10': 'int10', 'mixed': 'mixed', 'f2': 'f2', 'small': None, 'f3log': None, 'cat2': None}
 
 
 class C13(runner.Check):
@@ -25,7 +25,8 @@ class C13(runner.Check):
           'load) after the given subset of steps - directly on the designer, through '
           'PartiallySerializableDesignerPolicy + InRamPolicySupporter metadata, or through the real service '
           '(RAM without restarts vs SQLite file with server restarts, one simulated clock schedule); both are '
-          'fed the same deterministic completions (with infeasible trials mixed in); grid / shuffled grid / '
+          'fed the same deterministic completions (with infeasible trials mixed in, in suggestion order or not, '
+          'some left pending so that a suggest incorporates nothing new); grid / shuffled grid / '
           'quasi-random / eagle must emit identical suggestions, NSGA-II and CMA-ES identical population, '
           'phase and counters (dump + mutation-phase seam); service-hosted grid search must visit every grid '
           'point exactly once; restart subsets are enumerated exhaustively for histories of <=6 steps, '
@@ -41,7 +42,8 @@ class C13(runner.Check):
   chunk = 10
   probes = ['probe.restart-after-state-changed', 'probe.nsga2-left-sampling-phase', 'probe.eagle-pool-full',
             'probe.cmaes-generation-boundary', 'probe.infeasible-trial-fed', 'probe.depth.direct',
-            'probe.depth.policy', 'probe.depth.service', 'probe.grid-fully-covered', 'probe.exhaustive-subsets', 'probe.out-of-order-completions']
+            'probe.depth.policy', 'probe.depth.service', 'probe.grid-fully-covered', 'probe.exhaustive-subsets', 'probe.out-of-order-completions',
+            'probe.suggest-without-new-completions']
 
   def gen(self, rng, idx, tier):
     depth = rng.choice(['direct'] * 5 + ['policy'] * 3 + ['service'] * 2)
@@ -77,6 +79,10 @@ class C13(runner.Check):
     return {'designer': name, 'space': space, 'seed': seed, 'depth': depth,
             'order': rng.choice(['in-order', 'in-order', 'reversed', 'shuffled', 'shuffled', 'delayed']),
             'order_seed': rng.randrange(10**6),
+            # per step: 0 = every trial of the step is completed before the next suggest, 1 = one is left
+            # pending, 2 = all are left pending (the next suggest incorporates nothing new); pending trials
+            # are completed at the next step that is not 2
+            'hold': [rng.choice([0, 0, 0, 0, 1, 2, 2]) for _ in range(n)] if rng.random() < 0.4 else [0] * n,
             'batches': batches, 'restart_sets': sets, 'exhaustive': exhaustive,
             'infeasible_mod': rng.choice([0, 0, 4, 5]) if name != 'nsga2' else 0,
             'metrics': 2 if (name == 'nsga2' and rng.random() < 0.5) else 1,
@@ -90,7 +96,7 @@ class C13(runner.Check):
     # fewer steps, then fewer restarts inside the remaining set
     n = len(plan['batches'])
     if n > 1:
-      short = dict(plan, batches=plan['batches'][:-1], advance=plan['advance'][:-1],
+      short = dict(plan, batches=plan['batches'][:-1], advance=plan['advance'][:-1], hold=(plan.get('hold') or [0] * n)[:-1],
                    restart_sets=[[i for i in s if i < n - 1] for s in plan['restart_sets']])
       short['restart_sets'] = [s for s in short['restart_sets'] if s] or [[0]]
       yield short
@@ -103,6 +109,8 @@ class C13(runner.Check):
         yield dict(plan, batches=plan['batches'][:i] + [1] + plan['batches'][i + 1:])
     if plan.get('infeasible_mod'):
       yield dict(plan, infeasible_mod=0)
+    if any(plan.get('hold') or []):
+      yield dict(plan, hold=[0] * n)
 
   # ------------------------------------------------------------------ run
   def run(self, plan):
@@ -201,6 +209,12 @@ class C13(runner.Check):
         if order == 'delayed' and len(trials) > 1 and step + 1 < len(plan['batches']):
           carry = trials[-1:]
           trials = trials[:-1]
+        hold = (plan.get('hold') or [0] * len(plan['batches']))[step]
+        if hold == 2:
+          carry, trials = trials + carry, []
+          res.bump('probe.suggest-without-new-completions')
+        elif hold == 1 and len(trials) > 1:
+          carry, trials = carry + trials[-1:], trials[:-1]
         if order != 'in-order':
           res.bump('probe.out-of-order-completions')
         before = twin.cma_state(A) if name == 'cmaes' else None
@@ -247,6 +261,7 @@ class C13(runner.Check):
         policy = new_policy()
         seq = []
         states = []
+        pending = []
         for step, count in enumerate(plan['batches']):
           clk.advance(plan['advance'][step])
           if run_b and step in restarts:
@@ -266,6 +281,15 @@ class C13(runner.Check):
           elif order in ('shuffled', 'delayed'):
             import random as _r  # pylint: disable=g-import-not-at-top
             _r.Random(plan.get('order_seed', 0) * 1000 + step).shuffle(trials)
+          hold = (plan.get('hold') or [0] * len(plan['batches']))[step]
+          trials = pending + trials
+          pending = []
+          if hold == 2:
+            pending, trials = trials, []
+            if not run_b:
+              res.bump('probe.suggest-without-new-completions')
+          elif hold == 1 and len(trials) > 1:
+            pending, trials = trials[-1:], trials[:-1]
           for t in trials:
             if self._infeasible(plan, t.id):
               t.complete(vz.Measurement(), infeasibility_reason='harness: infeasible')
